@@ -552,7 +552,7 @@ def do_check(pid, plan, tier, seed, d, evid_path, t0):
     # ---- extra stages ------------------------------------------------------------------
     extra_cov = {}
     for st in T.get("extra", []):
-        ctx = {"crashed": LAST_CRASHED, "ToolError": ToolError, "run": run, "save_replay": save_replay, "log": log,
+        ctx = {"nontrivial": plan.get("nontrivial"), "crashed": LAST_CRASHED, "ToolError": ToolError, "run": run, "save_replay": save_replay, "log": log,
                "build_harness": build_harness, "trace_monitor": trace_monitor, "split_trace": split_trace,
                "load_runs": load_runs, "NCPU": NCPU}
         res = st["fn"](pid, tier, seed, d, binp, st, ctx)
